@@ -1411,7 +1411,10 @@ example : parseStatementText "SHOW stats FOR 'runtime'".toList [] [] = .ok (.sho
 /-! ## Free spelling of expressions
 
 C03 proves `ParseExpr (e.String()) = e` — the *printed* spelling. Here: **every legal spelling**.
-A spelled expression (`ER.SExpr`: `ER.SAtom` operands, `ER.SOps` operator chain) carries a `Render.Gap`
+A spelled expression (`ER.SExpr`: `ER.SAtom` operands — variable references bare or quoted, integer
+literals with leading zeros, string literals, `true` / `false` in any case, duration literals,
+parenthesised chains; `ER.SOps` operator chain — all 18 binary operators, `=~` / `!~` with a regex
+literal) carries a `Render.Gap`
 — any number of whitespace runs and comments — at every place where the parser calls
 `ScanIgnoreWhitespace`, and the spelling choices of every token. `legal` (decidable) says that every gap
 and token is well formed and that no token runs into the next one (`aANDb`, `1h`, `a<=b` for `a < =b`,
@@ -1495,6 +1498,18 @@ example : parseExprText "host=~ /* any */\n/^a\\/b/ and\tn !~-- c\n /x/".toList 
         (.cons [.ws ' '] .AND "and".toList [.ws '\t'] (.ref .bare ['n'])
         (.consRe [.ws ' '] .NEQREGEX ['!', '~'] [.line " c".toList, .ws ' '] ['x'] .nil)),
       g := [] } _ [] [] (by decide) (by decide)
+
+/-- ` time>1h30m\r\noR/***/k=TRUE \n`: a duration literal and a boolean in capitals, no gap around `>` and
+`=`, CRLF, a block comment as the only gap after `oR`, leading and trailing gaps. -/
+example : parseExprText " time>1h30m\r\noR/***/k=TRUE \n".toList [] [] =
+    .ok (.binary .OR (.binary .GT (.varRef "time".toList .Unknown) (.duration 5400000000000))
+      (.binary .EQ (.varRef ['k'] .Unknown) (.boolean true))) :=
+  expr_render_parse
+    { g0 := [.ws ' '], a := .ref .bare "time".toList,
+      ops := .cons [] .GT ['>'] [] (.dur "1h30m".toList 5400000000000)
+        (.cons [.ws '\n'] .OR ['o', 'R'] [.block ['*']] (.ref .bare ['k'])
+        (.cons [] .EQ ['='] [] (.bool "TRUE".toList true) .nil)),
+      g := [.ws ' ', .ws '\n'] } _ [] [] (by decide) (by decide +kernel)
 
 /-- Outside `legal`, and rightly so: `a ---x⏎ b` is `a`, a comment, `b` (`ParseExpr` returns `a` and
 leaves `b`), not `a - b`. -/
